@@ -101,6 +101,13 @@ See https://bkl.gopatchy.io/#bkld for detailed documentation.`
 		fatal(err)
 	}
 
+	if doc == nil && format == "toml" {
+		// Nothing differs. In TOML empty text is not "no document" but an
+		// empty-map document, which bkl would append to the base: write a
+		// layer that explicitly selects the base document and changes nothing.
+		doc = map[string]any{"$match": map[string]any{}}
+	}
+
 	enc, err := outF.MarshalStream([]any{doc})
 	if err != nil {
 		fatal(err)
